@@ -104,13 +104,17 @@ def run(prog: Program) -> Results:
     # the generic walker itself: every comment child is either attached inline or appended to the pending trivia
     pds = prog.func("parse_delimited_sequence")
     r1.instances += 1
-    loop = next((n for n in pds.node.body if isinstance(n, ast.For)), None)
+    # stated on the paths of the loop body under "the child is a comment" (decision table, sa/dtable.py): each of them hands
+    # the comment to the inline-attach callback or appends it to the pending trivia — however the arms are arranged
+    loop = next((n for n in pds.node.body if isinstance(n, ast.For) and any(
+        isinstance(c, ast.Call) and callee(c) == "append_comment_between" for c in ast.walk(n))), None)
     ok = False
-    if loop is not None:
-        arm = next((s for s in loop.body if isinstance(s, ast.If) and "'comment'" in norm(s.test)), None)
-        if arm is not None:
-            t = alpha(arm, pds.node, anonymous=True)
-            ok = "$($[-1], $)" in t and "append_comment_between($, $, $, $)" in t and "continue" in t
+    if loop is not None and isinstance(loop.target, ast.Name):
+        from sa.dtable import outcome as _outcome
+        lv = loop.target.id
+        attach = next((p_ for p_ in pds.params() if "attach" in p_), "attach_inline_comment")
+        o = _outcome(loop.body, {f"{lv}.type == 'comment'": True, f"{lv}.type != 'comment'": False})
+        ok = bool(o.paths) and all(any(a.startswith(f"{attach}(") or a.startswith("append_comment_between(") for a in p_) for p_ in o.paths)
     r1.ob(ok, {"parse_delimited_sequence": "comment arm attaches inline or appends to pending trivia"})
     if not ok:
         res.add("R-C03-1", ("parse_delimited_sequence", "comment arm"), pds.loc(),
@@ -473,15 +477,27 @@ def run(prog: Program) -> Results:
     if loop is None:
         res.unclass("parse_delimited_sequence: the loop that consults can_inline_comment was not found")
     else:
-        guard = next((n for n in ast.walk(loop) if isinstance(n, ast.If) and any(isinstance(c, ast.Call) and callee(c) == "can_inline_comment" for c in ast.walk(n.test))), None)
-        names = {x.id for x in ast.walk(guard.test) if isinstance(x, ast.Name)} if guard is not None else set()
-        for nm in names:
-            sets_false = any(isinstance(d, ast.Assign) and norm(d.targets[0]) == nm and is_const(d.value, False) for st in (guard.orelse if guard else []) for d in ast.walk(st))
-            sets_true = any(isinstance(d, ast.Assign) and norm(d.targets[0]) == nm and is_const(d.value, True) for d in ast.walk(loop)
-                            if not any(d is y for y in ast.walk(guard)))
-            conj = guard is not None and isinstance(guard.test, ast.BoolOp) and isinstance(guard.test.op, ast.And) and any(
-                isinstance(v, ast.Name) and v.id == nm for v in guard.test.values)
-            if sets_false and sets_true and conj:
+        # the latch, stated on the paths of the loop body (sa/dtable.py): a boolean local L such that (1) with L false no
+        # comment is attached inline, (2) every comment that is not attached inline sets L false, (3) an item sets L true
+        from sa.dtable import outcome as _outcome
+        lv = loop.target.id if isinstance(loop.target, ast.Name) else "child"
+        attach = next((p_ for p_ in pds.params() if "attach" in p_), "attach_inline_comment")
+        flags = {norm(d.targets[0]) for d in ast.walk(loop) if isinstance(d, ast.Assign) and isinstance(d.targets[0], ast.Name)
+                 and isinstance(d.value, ast.Constant) and isinstance(d.value.value, bool)}
+        comment = {f"{lv}.type == 'comment'": True, f"{lv}.type != 'comment'": False}
+        item = {f"{lv}.type == 'comment'": False, f"{lv}.type != 'comment'": True}
+
+        def attaches(path):
+            return any(a.startswith(f"{attach}(") for a in path)
+
+        for nm in sorted(flags):
+            off = _outcome(loop.body, dict(comment, **{nm: False}))
+            anyc = _outcome(loop.body, comment)
+            it = _outcome(loop.body, item)
+            c1 = bool(off.paths) and not any(attaches(p_) for p_ in off.paths)
+            c2 = bool(anyc.paths) and all(attaches(p_) or f"{nm} = False" in p_ for p_ in anyc.paths)
+            c3 = any(f"{nm} = True" in p_ for p_ in it.paths)
+            if c1 and c2 and c3:
                 latched = True
     for f in prog.all_functions():
         for c in walk_no_nested(f.node):
